@@ -163,6 +163,39 @@ def jsonOfConfig (c : Config) : Json :=
     ("sections", match c.sections with
       | some l => .arr (l.map fun s => Json.str (strOf s)).toArray | none => .null)]
 
+/-- a regex AST sent by the engine tie: `{"t": "seq", "a": …, "b": …}` etc. -/
+partial def rxOfJson (j : Json) : Except String Rx := do
+  let t ← j.getObjValAs? String "t"
+  let ch (k : String) : Except String Char := do
+    let s ← j.getObjValAs? String k
+    match s.toList with
+    | [c] => pure c
+    | _ => throw "one character expected"
+  let sub (k : String) : Except String Rx := do rxOfJson (← j.getObjVal? k)
+  match t with
+  | "eps" => pure .eps
+  | "chr" => pure (.chr (← ch "c"))
+  | "esc" => pure (.esc (← ch "c"))
+  | "any" => pure .any
+  | "cls" => do
+    let neg ← j.getObjValAs? Bool "neg"
+    let items ← j.getObjValAs? (Array String) "items"
+    let its ← items.toList.mapM fun s => match s.toList with
+      | [c] => pure (CI.ch c)
+      | ['\\', 'd'] => pure CI.digit
+      | _ => throw "bad class item"
+    pure (.cls neg its)
+  | "seq" => pure (.seq (← sub "a") (← sub "b"))
+  | "alt" => pure (.alt (← sub "a") (← sub "b"))
+  | "grp" => pure (.grp (← sub "r"))
+  | "rep" => pure (.rep (← sub "r") (← j.getObjValAs? Nat "lo") (← j.getObjValAs? Nat "hi"))
+  | "opt" => pure (.opt (← sub "r"))
+  | "plus" => pure (.plus (← sub "r"))
+  | "cap" => pure (.cap (← j.getObjValAs? Nat "n") (← sub "r"))
+  | "bref" => pure (.bref (← j.getObjValAs? Nat "n"))
+  | "nla" => pure (.nla (← sub "r"))
+  | _ => throw s!"unknown regex node {t}"
+
 def handle (st : Config) (j : Json) : Except String (Config × Json) := do
   let op ← j.getObjValAs? String "op"
   match op with
@@ -285,6 +318,16 @@ def handle (st : Config) (j : Json) : Except String (Config × Json) := do
 where handlePure (j : Json) (op : String) : Except String Json := do
   match op with
   | "ping" => pure (Json.mkObj [("ok", .str "pong")])
+  | "engine" => do
+    -- engine tie: the model of the regex engine alone, on an arbitrary AST of the emitted operator set
+    let rx ← rxOfJson (← j.getObjVal? "rx")
+    let t ← j.getObjValAs? String "text"
+    let s := t.toList
+    let first : Json := match search rx s with
+      | some (k, m, _) => .arr #[.num (JsonNumber.fromNat k), .str (strOf m)]
+      | none => .null
+    pure (Json.mkObj [("ok", Json.mkObj [("render", .str (strOf rx.render)), ("wf", .bool rx.wf), ("first", first),
+      ("all", .arr ((findAll rx s).map fun m => Json.str (strOf m)).toArray)])])
   | "compile" => do
     let fl ← getFlags j
     let tree ← yOfJson (← j.getObjVal? "tree")
